@@ -114,7 +114,8 @@ def generate(rng, opts):
         "detached": rng.random() < 0.2,
         # directory names are the user's choice: they may look like a (normalised) reference
         "repo_dirname": rng.choice(["repo", "repo", "repo", "main", "v1", "HEAD"]),
-        "user_worktree_dirname": rng.choice(["user-wt", "user-wt", "v1", "feature-x", "release-1-0", "dev", "main", "1-0-0"]),
+        # (file names are bytes: `caf\udce9` stands for a Latin-1 name, b"caf\xe9", which is not valid UTF-8)
+        "user_worktree_dirname": rng.choice(["user-wt", "user-wt", "v1", "feature-x", "release-1-0", "dev", "main", "1-0-0", "caf\udce9", "caf\udce9"]),
         # the user may be working in a linked worktree of their repository (where .git is a file) and run Griffe there
         "work_in_linked_worktree": rng.random() < 0.25,
         # $TMPDIR reached through a symbolic link (macOS /tmp, /var): Git reports real paths
@@ -188,7 +189,7 @@ def generate(rng, opts):
 
 
 def _git(repo, *args, check=True, env=None):
-    p = real_subprocess.run(["git", "-C", repo, *args], capture_output=True, text=True, env=env or _env(), check=False)
+    p = real_subprocess.run(["git", "-C", repo, *args], capture_output=True, text=True, errors="surrogateescape", env=env or _env(), check=False)
     if check and p.returncode:
         raise core.HarnessError(f"git {' '.join(args)} failed in harness: {p.stderr[:300]}")
     return p.stdout
@@ -883,6 +884,15 @@ def execute(plan, ctx):
                     if tmpdir in text or "griffe-worktree-" in text:
                         ctx.fail("U-breakage-path", f"check output shows the temporary checkout path: {text[:200]}", tags=tags)
                         break
+                    if op.get("style") in (None, "oneline") and not faults:
+                        # `<file>:<line>: <object>: <what>`: the file is named as it is in the repository
+                        import re as _re
+
+                        prefix = "src/" if world["layout"] == "src" else ""
+                        bad = [ln for ln in lines if (m := _re.match(r"^([^\s:]+\.py):\d+: ", ln)) and not m.group(1).startswith((prefix + "pkg/", prefix + "_pkg/"))]
+                        if bad:
+                            ctx.fail("U-breakage-location", f"check names a file that is not a path of the repository: {bad[0][:160]}", tags=tags)
+                            break
                     if result not in (0, 1, 2):
                         ctx.fail("U-exit-code", f"check returned {result!r}", tags=tags)
                         break
